@@ -11,6 +11,8 @@ Structural clauses decided:
     HTTP/1 header count and line lengths)
  C05.R1 / C08.R3 / C10.R3 / W.R2 bounds that rest on rules of other properties (head-only decode, TLS flow lifecycle,
     batch drained, per-worker capacity)
+ R3 (also) explicit allocation sizes are constants, configured limits or stored lengths - never packet fields
+ C18.R2 both directions of a connection reach one worker; TW IPv4/IPv6 twins agree
 """
 from ..engine import cfg as C
 from ..engine import q as Q
